@@ -1,0 +1,69 @@
+//go:build verif
+// +build verif
+
+package main
+
+import (
+	"fmt"
+	"os"
+	"strconv"
+	"strings"
+	"sync"
+	"sync/atomic"
+	"time"
+)
+
+// Verification hooks (build tag verif).
+//
+//	OW_SIM_DELAYS=<seed>:<max microseconds>  seeded sleeps at the hook points (takes no lock:
+//	                                         adds no happens-before edges in -race builds)
+//	OW_SIM_TRACE=<file>                      append one line per hook point (serialised by a mutex;
+//	                                         not used together with the race detector)
+
+var (
+	verifDelaySeed uint64
+	verifDelayMax  uint64
+	verifTracePath string
+	verifTraceMu   sync.Mutex
+	verifCounter   uint64
+)
+
+func init() {
+	if v := os.Getenv("OW_SIM_DELAYS"); v != "" {
+		parts := strings.Split(v, ":")
+		if len(parts) == 2 {
+			verifDelaySeed, _ = strconv.ParseUint(parts[0], 10, 64)
+			verifDelayMax, _ = strconv.ParseUint(parts[1], 10, 64)
+		}
+	}
+	verifTracePath = os.Getenv("OW_SIM_TRACE")
+}
+
+func verifMix(x uint64) uint64 {
+	x += 0x9e3779b97f4a7c15
+	x = (x ^ (x >> 30)) * 0xbf58476d1ce4e5b9
+	x = (x ^ (x >> 27)) * 0x94d049bb133111eb
+	return x ^ (x >> 31)
+}
+
+func verifPoint(name string, generation int) {
+	n := atomic.AddUint64(&verifCounter, 1)
+	if verifTracePath != "" {
+		verifTraceMu.Lock()
+		if f, err := os.OpenFile(verifTracePath, os.O_APPEND|os.O_CREATE|os.O_WRONLY, 0644); err == nil {
+			fmt.Fprintf(f, "%d %s %d\n", n, name, generation)
+			f.Close()
+		}
+		verifTraceMu.Unlock()
+	}
+	if verifDelayMax > 0 {
+		h := uint64(0)
+		for _, ch := range name {
+			h = h*131 + uint64(ch)
+		}
+		r := verifMix(verifDelaySeed ^ h ^ uint64(generation)*0x9e3779b97f4a7c15)
+		if r%3 != 0 {
+			time.Sleep(time.Duration((r>>8)%verifDelayMax) * time.Microsecond)
+		}
+	}
+}
